@@ -184,3 +184,28 @@ func raceReports(stderr string) []string {
 const raceEnv = "GORACE=halt_on_error=0 exitcode=66 history_size=3"
 
 func numCPU() int { return runtime.NumCPU() }
+
+// shmScratch makes a private scratch directory on /dev/shm (tmpfs: file creation is an order
+// of magnitude cheaper than on the disk behind /tmp); "" when that is not possible.  The
+// caller removes it; directories left by a run that was killed are removed after an hour.
+func shmScratch(tag string) string {
+	const root = "/dev/shm"
+	if os.Getenv("VERIF_NO_SHM") != "" {
+		return ""
+	}
+	if st, err := os.Stat(root); err != nil || !st.IsDir() {
+		return ""
+	}
+	if old, err := filepath.Glob(filepath.Join(root, "wharfobs-"+tag+"-*")); err == nil {
+		for _, o := range old {
+			if st, err := os.Stat(o); err == nil && time.Since(st.ModTime()) > time.Hour {
+				os.RemoveAll(o)
+			}
+		}
+	}
+	d, err := os.MkdirTemp(root, "wharfobs-"+tag+"-")
+	if err != nil {
+		return ""
+	}
+	return d
+}
